@@ -32,16 +32,16 @@ def base_ctx():
     return Ctx([Affine.sym('numiter') - Affine.const(1), Affine.sym('n') - Affine.const(1)])
 
 
-def run(chk, repo, tier):
-    chk.rule('C14.R1', 'return shapes: on every return path of lanczos_iteration (full and early) '
+def krylov_rules(chk, repo, P='C14'):
+    chk.rule(f'{P}.R1', 'return shapes: on every return path of lanczos_iteration (full and early) '
                        'len(alpha) = len(beta) + 1 = V.shape[1] and V.shape[0] = len(vstart); on every return path of '
                        'arnoldi_iteration H is square of order V.shape[1] and V.shape[0] = len(vstart).  Extents are '
                        'affine terms in numiter, n and the loop variable; slices count only if their bounds are proved '
                        'to lie inside the allocated extent.')
-    chk.rule('C14.R2', 'index and slice bounds: every integer index and slice end inside the iterations is proved '
+    chk.rule(f'{P}.R2', 'index and slice bounds: every integer index and slice end inside the iterations is proved '
                        'within the allocated extent from the loop intervals (0 <= j <= numiter-2, 0 <= k <= j) and '
                        'guards (j > 0); stored rows have the shape of their slot.')
-    chk.rule('C14.R3', 'consumers: eigh_krylov / expm_krylov are checked against every return record of the producers: '
+    chk.rule(f'{P}.R3', 'consumers: eigh_krylov / expm_krylov are checked against every return record of the producers: '
                        'eigh_tridiagonal(d, e) needs len(e) = len(d) - 1, every `@` needs matching inner extents, '
                        'expm needs a square matrix.')
     records = {}
@@ -60,8 +60,8 @@ def run(chk, repo, tier):
         for kind, node, ok, text in obs:
             if ok is None:
                 raise AnalysisError(f'{q}: {text}')
-            chk.ob('C14.R2', where(repo, fi, node), f'{fi.name}: {kind} {text[:110]}', ok, text,
-                   key=f'C14.R2|{q}|{kind}|{norm(node)[:80]}|{text[:60]}')
+            chk.ob(f'{P}.R2', where(repo, fi, node), f'{fi.name}: {kind} {text[:110]}', ok, text,
+                   key=f'{P}.R2|{q}|{kind}|{norm(node)[:80]}|{text[:60]}')
         nsym = Affine.sym('n')
         for r in rets:
             n_ret += 1
@@ -73,44 +73,44 @@ def run(chk, repo, tier):
                     len(v.data[0].data) == 1 and len(v.data[1].data) == 1 and len(v.data[2].data) == 2 and \
                     not any(str(sy).startswith('?') for x in v.data for d in x.data for sy in d.syms())
                 if not ok_form:
-                    chk.ob('C14.R1', w, f'{fi.name} ({tag}): shapes of (alpha, beta, V) are determined', False,
+                    chk.ob(f'{P}.R1', w, f'{fi.name} ({tag}): shapes of (alpha, beta, V) are determined', False,
                            f'returned {v} - a slice bound could not be proved inside the allocated extent',
-                           key=f'C14.R1|{q}|{tag}|form')
+                           key=f'{P}.R1|{q}|{tag}|form')
                     continue
                 a, b, V = v.data
-                chk.ob('C14.R1', w, f'{fi.name} ({tag}): len(alpha) == len(beta) + 1', a.data[0] == b.data[0] + Affine.const(1),
-                       f'len(alpha) = {a.data[0]}, len(beta) = {b.data[0]}', key=f'C14.R1|{q}|{tag}|alpha-beta')
-                chk.ob('C14.R1', w, f'{fi.name} ({tag}): len(alpha) == V.shape[1]', a.data[0] == V.data[1],
-                       f'len(alpha) = {a.data[0]}, V.shape = {tuple(V.data)}', key=f'C14.R1|{q}|{tag}|alpha-V')
-                chk.ob('C14.R1', w, f'{fi.name} ({tag}): V.shape[0] == len(vstart)', V.data[0] == nsym,
-                       f'V.shape = {tuple(V.data)}', key=f'C14.R1|{q}|{tag}|V-n')
-                chk.ob('C14.R1', w, f'{fi.name} ({tag}): at least one Lanczos vector is returned',
+                chk.ob(f'{P}.R1', w, f'{fi.name} ({tag}): len(alpha) == len(beta) + 1', a.data[0] == b.data[0] + Affine.const(1),
+                       f'len(alpha) = {a.data[0]}, len(beta) = {b.data[0]}', key=f'{P}.R1|{q}|{tag}|alpha-beta')
+                chk.ob(f'{P}.R1', w, f'{fi.name} ({tag}): len(alpha) == V.shape[1]', a.data[0] == V.data[1],
+                       f'len(alpha) = {a.data[0]}, V.shape = {tuple(V.data)}', key=f'{P}.R1|{q}|{tag}|alpha-V')
+                chk.ob(f'{P}.R1', w, f'{fi.name} ({tag}): V.shape[0] == len(vstart)', V.data[0] == nsym,
+                       f'V.shape = {tuple(V.data)}', key=f'{P}.R1|{q}|{tag}|V-n')
+                chk.ob(f'{P}.R1', w, f'{fi.name} ({tag}): at least one Lanczos vector is returned',
                        nonneg(a.data[0] - Affine.const(1), r.ctx), f'len(alpha) = {a.data[0]}',
-                       key=f'C14.R1|{q}|{tag}|nonempty')
+                       key=f'{P}.R1|{q}|{tag}|nonempty')
             else:
                 ok_form = v.kind == 'tuple' and len(v.data) == 2 and all(x.kind == 'arr' for x in v.data) and \
                     len(v.data[0].data) == 2 and len(v.data[1].data) == 2 and \
                     not any(str(sy).startswith('?') for x in v.data for d in x.data for sy in d.syms())
                 if not ok_form:
-                    chk.ob('C14.R1', w, f'{fi.name} ({tag}): shapes of (H, V) are determined', False,
+                    chk.ob(f'{P}.R1', w, f'{fi.name} ({tag}): shapes of (H, V) are determined', False,
                            f'returned {v} - a slice bound could not be proved inside the allocated extent',
-                           key=f'C14.R1|{q}|{tag}|form')
+                           key=f'{P}.R1|{q}|{tag}|form')
                     continue
                 H, V = v.data
-                chk.ob('C14.R1', w, f'{fi.name} ({tag}): H is square', H.data[0] == H.data[1], f'H.shape = {tuple(H.data)}',
-                       key=f'C14.R1|{q}|{tag}|H-square')
-                chk.ob('C14.R1', w, f'{fi.name} ({tag}): order of H == V.shape[1]', H.data[0] == V.data[1],
-                       f'H.shape = {tuple(H.data)}, V.shape = {tuple(V.data)}', key=f'C14.R1|{q}|{tag}|H-V')
-                chk.ob('C14.R1', w, f'{fi.name} ({tag}): V.shape[0] == len(vstart)', V.data[0] == nsym,
-                       f'V.shape = {tuple(V.data)}', key=f'C14.R1|{q}|{tag}|V-n')
-                chk.ob('C14.R1', w, f'{fi.name} ({tag}): at least one Arnoldi vector is returned',
+                chk.ob(f'{P}.R1', w, f'{fi.name} ({tag}): H is square', H.data[0] == H.data[1], f'H.shape = {tuple(H.data)}',
+                       key=f'{P}.R1|{q}|{tag}|H-square')
+                chk.ob(f'{P}.R1', w, f'{fi.name} ({tag}): order of H == V.shape[1]', H.data[0] == V.data[1],
+                       f'H.shape = {tuple(H.data)}, V.shape = {tuple(V.data)}', key=f'{P}.R1|{q}|{tag}|H-V')
+                chk.ob(f'{P}.R1', w, f'{fi.name} ({tag}): V.shape[0] == len(vstart)', V.data[0] == nsym,
+                       f'V.shape = {tuple(V.data)}', key=f'{P}.R1|{q}|{tag}|V-n')
+                chk.ob(f'{P}.R1', w, f'{fi.name} ({tag}): at least one Arnoldi vector is returned',
                        nonneg(H.data[0] - Affine.const(1), r.ctx), f'order = {H.data[0]}',
-                       key=f'C14.R1|{q}|{tag}|nonempty')
+                       key=f'{P}.R1|{q}|{tag}|nonempty')
         # both kinds of return must exist (full and early)
         kinds = {r.early for r in rets}
-        chk.ob('C14.R1', where(repo, fi, fi.node), f'{fi.name}: early-termination and full return paths both analysed',
-               kinds == {True, False}, f'return paths found: {len(rets)}', key=f'C14.R1|{q}|paths')
-    chk.floor('C14.R1', n_ret, 4)
+        chk.ob(f'{P}.R1', where(repo, fi, fi.node), f'{fi.name}: early-termination and full return paths both analysed',
+               kinds == {True, False}, f'return paths found: {len(rets)}', key=f'{P}.R1|{q}|paths')
+    chk.floor(f'{P}.R1', n_ret, 4)
     # consumers against every return record
     n_cons = 0
     for q in CONSUMERS:
@@ -146,9 +146,14 @@ def run(chk, repo, tier):
                         # shapes of the producer result are undetermined: reported under R1 already
                         continue
                     n_cons += 1
-                    chk.ob('C14.R3', where(repo, fi, node), f'{fi.name} with the {tag} result of {prod}: {text[:100]}', ok,
-                           text, key=f'C14.R3|{q}|{prod}|{tag}|{norm(node)[:70]}')
-    chk.floor('C14.R3', n_cons, 10)
+                    chk.ob(f'{P}.R3', where(repo, fi, node), f'{fi.name} with the {tag} result of {prod}: {text[:100]}', ok,
+                           text, key=f'{P}.R3|{q}|{prod}|{tag}|{norm(node)[:70]}')
+    chk.floor(f'{P}.R3', n_cons, 10)
+    return n_ret, n_cons
+
+
+def run(chk, repo, tier):
+    krylov_rules(chk, repo, 'C14')
     chk.assume('A-linear-map: the matrix-free callback returns a vector of the length of its argument')
     chk.assume('documented domain: numiter >= 1, len(vstart) >= 1')
     chk.undecided += ['orthonormality of the Krylov vectors', 'realness / positivity of the coefficients',
